@@ -20,7 +20,7 @@ import (
 // C01: every specified target is probed exactly once per pass (command level, virtual wire).
 
 type c01Case struct {
-	Cmd      string    `json:"command"`   // arp icmp udp tcp | tcp syn | tcp fin | tcp null | tcp xmas | tcp --flags X
+	Cmd      string    `json:"command"` // arp icmp udp tcp | tcp syn | tcp fin | tcp null | tcp xmas | tcp --flags X
 	Spec     gram.Spec `json:"spec"`
 	PortsVia string    `json:"ports_via"` // p | file | both
 	Stdin    bool      `json:"file_from_stdin"`
